@@ -96,7 +96,10 @@ func init() {
 	sh("C11", 120, 1200, runner.Part{Scenario: "simhost", Params: p("smyield", "500", "pstop", "6", "psnapreq", "10"), Share: 2},
 		runner.Part{Scenario: "simhost", Params: p("smyield", "300", "pcrash", "6"), Share: 1},
 		// shards stopped and started again while snapshot jobs of the old incarnation are running or queued
-		runner.Part{Scenario: "simhost", Params: p("smyield", "600", "pstop", "20", "psnapreq", "40", "snapshot", "5", "overhead", "0", "phold", "300", "holdlen", "300", "pcrash", "0", "ppartition", "5", "steps", "2500"), Share: 1})
+		runner.Part{Scenario: "simhost", Params: p("smyield", "600", "pstop", "20", "psnapreq", "40", "snapshot", "5", "overhead", "0", "phold", "300", "holdlen", "300", "pcrash", "0", "ppartition", "5", "steps", "2500"), Share: 1},
+		// two shards per host: a single-member ballast shard keeps the only snapshot worker busy, so that jobs of
+		// the shard under test queue in the pool while it is stopped, closed and started again
+		runner.Part{Scenario: "simhost", Params: p("ballast", "1", "snapworkers", "1", "smyield", "600", "pstop", "25", "prestart", "80", "psnapreq", "40", "snapshot", "5", "overhead", "0", "phold", "400", "holdlen", "300", "pcrash", "2", "steps", "2500"), Share: 1})
 	sh("C12", 90, 1200, runner.Part{Scenario: "simhost", Params: p("pstop", "4", "timeout", "30"), Share: 2},
 		// StopShard / restarts landing inside the step worker's request intake (engine yield points)
 		runner.Part{Scenario: "simhost", Params: p("pstop", "10", "engyield", "400", "readmix", "60", "timeout", "30", "pcrash", "0"), Share: 2},
